@@ -12,6 +12,7 @@
 ezc3d::DataNS::Points3dNS::Point::Point(const std::string &name) :
     _name(name)
 {
+    ezc3d::removeTrailingSpaces(_name); // as the name setter does
     _data.resize(4);
 }
 
